@@ -35,7 +35,7 @@ def run(which, tier, repo=None, procs=16):
         size = max(20, min(1000, len(lines) // (procs * 4) + 1))
         jobs = [(lines[i:i + size], i) for i in range(0, len(lines), size)]
         with core.pool(export_replay.worker_init, (repo,), procs) as p:
-            parts = p.map(export_replay.replay_chunk, jobs)
+            parts = core.pmap(p, export_replay.replay_chunk, jobs)
         tot = {"n": 0, "vectors": 0, "attention": [], "dropped": 0, "known": {}, "known_witness": {}}
         for r in parts:
             for k in ("n", "vectors", "dropped"):
@@ -48,7 +48,7 @@ def run(which, tier, repo=None, procs=16):
         tot.update(config=c, tlc=stats)
         outcomes.append(tot)
         with core.pool(export_replay.worker_init, (repo, True), procs) as p:
-            parts = p.map(export_replay.replay_chunk, jobs[core.seed() % 3::3])
+            parts = core.pmap(p, export_replay.replay_chunk, jobs[core.seed() % 3::3])
         tot2 = {"n": 0, "vectors": 0, "attention": [], "dropped": 0, "known": {}, "known_witness": {}}
         for r in parts:
             for k in ("n", "vectors", "dropped"):
